@@ -1172,3 +1172,1105 @@ example :
   decide
 -- shadowing is an error of the specification
 example : toDB [some 1] (.mk ⟨0, 0⟩ false (.lam ⟨⟨0, 0⟩, 1⟩ false .none (v 1)) []) = none := by decide
+
+/-! ## Round trip: name resolution loses no binding information -/
+
+/-- In a λ-annotation position a written `_` and an omitted annotation denote the same thing (a
+fresh hole living at the λ): the normal form is "omitted". -/
+def normLamAnn : OptSrc → OptSrc
+  | .some (.mk r g (.var x) es) => if x = placeholder then .none else .some (.mk r g (.var x) es)
+  | o => o
+
+-- Erase layout: source ranges, the "was parenthesised" flag, syntax-error listings.  With `k = true`
+-- additionally normalise λ-annotations with `normLamAnn`.
+mutual
+def layoutB (k : Bool) : Src → Src
+  | .mk _ _ v _ => .mk ⟨0, 0⟩ false (layoutVB k v) []
+def layoutVB (k : Bool) : SrcV → SrcV
+  | .lam x im dom b =>
+      .lam ⟨⟨0, 0⟩, x.name⟩ im (if k then normLamAnn (layoutOptB k dom) else layoutOptB k dom) (layoutB k b)
+  | .pi x im d c => .pi ⟨⟨0, 0⟩, x.name⟩ im (layoutB k d) (layoutB k c)
+  | .app f a => .app (layoutB k f) (layoutB k a)
+  | .let_ x ann d b => .let_ ⟨⟨0, 0⟩, x.name⟩ (layoutOptB k ann) (layoutB k d) (layoutB k b)
+  | .neg a => .neg (layoutB k a)
+  | .bin op a b => .bin op (layoutB k a) (layoutB k b)
+  | .ite c a b => .ite (layoutB k c) (layoutB k a) (layoutB k b)
+  | .parseError => .parseError
+  | .type => .type
+  | .var x => .var x
+  | .int => .int
+  | .lit n => .lit n
+  | .bool => .bool
+  | .tt => .tt
+  | .ff => .ff
+def layoutOptB (k : Bool) : OptSrc → OptSrc
+  | .none => .none
+  | .some t => .some (layoutB k t)
+end
+
+/-- layout erasure only -/
+abbrev eraseLayout : Src → Src := layoutB false
+/-- layout erasure, and `(x : _) => b` identified with `x => b` -/
+abbrev stripLayout : Src → Src := layoutB true
+
+def Tm.isHole0 : Tm → Bool
+  | .hole _ 0 => true
+  | _ => false
+def Tm.isHoleS : Tm → Bool
+  | .hole _ (_ + 1) => true
+  | _ => false
+def Defs.binderNames : Defs → List Name
+  | .nil => []
+  | .cons x _ _ r => x :: r.binderNames
+
+def bareSrc (v : SrcV) : Src := .mk ⟨0, 0⟩ false v []
+def bareVar (x : Name) : SrcVar := ⟨⟨0, 0⟩, x⟩
+
+/-- the stack after entering a group with these names (source order; the last one is index 0) -/
+def Stack.pushAll (Γ : Stack) (names : List Name) : Stack := (names.map slot).reverse ++ Γ
+
+-- Read a resolved tree back: every index through the binder stack to the NAME bound there (the name
+-- annotation carried by `Tm.var` is ignored), holes to `_`, omitted annotations to omitted
+-- annotations.  Layout is filled with dummies.
+mutual
+def fromDB (Γ : Stack) : Tm → Option Src
+  | .hole _ s => if s = 0 then some (bareSrc (.var placeholder)) else none
+  | .type => some (bareSrc .type)
+  | .int => some (bareSrc .int)
+  | .bool => some (bareSrc .bool)
+  | .tt => some (bareSrc .tt)
+  | .ff => some (bareSrc .ff)
+  | .lit n => some (bareSrc (.lit n))
+  | .var _ i =>
+      match Γ[i]? with
+      | some (some y) => some (bareSrc (.var y))
+      | _ => none
+  | .lam x im d b =>
+      match (if d.isHole0 then some OptSrc.none else (fromDB Γ d).map OptSrc.some),
+            fromDB (slot x :: Γ) b with
+      | some d', some b' => some (bareSrc (.lam (bareVar x) im d' b'))
+      | _, _ => none
+  | .pi x im d c =>
+      match fromDB Γ d, fromDB (slot x :: Γ) c with
+      | some d', some c' => some (bareSrc (.pi (bareVar x) im d' c'))
+      | _, _ => none
+  | .app f a =>
+      match fromDB Γ f, fromDB Γ a with
+      | some f', some a' => some (bareSrc (.app f' a'))
+      | _, _ => none
+  | .letg ds b =>
+      match fromDB (Γ.pushAll ds.binderNames) b with
+      | some b' => fromDBDefs (Γ.pushAll ds.binderNames) ds b'
+      | none => none
+  | .neg a => match fromDB Γ a with | some a' => some (bareSrc (.neg a')) | none => none
+  | .bin op a b =>
+      match fromDB Γ a, fromDB Γ b with
+      | some a', some b' => some (bareSrc (.bin op a' b'))
+      | _, _ => none
+  | .ite c a b =>
+      match fromDB Γ c, fromDB Γ a, fromDB Γ b with
+      | some c', some a', some b' => some (bareSrc (.ite c' a' b'))
+      | _, _, _ => none
+def fromDBDefs (Γ : Stack) : Defs → Src → Option Src
+  | .nil, body => some body
+  | .cons x a d r, body =>
+      match (if a.isHoleS then some OptSrc.none else (fromDB Γ a).map OptSrc.some),
+            fromDB Γ d, fromDBDefs Γ r body with
+      | some a', some d', some r' => some (bareSrc (.let_ (bareVar x) a' d' r'))
+      | _, _, _ => none
+end
+
+theorem Stack.index_get : ∀ (Γ : Stack) (x : Name) (i : Nat), Stack.index Γ x = some i →
+    Γ[i]? = some (some x)
+  | [], x, i, h => by simp [Stack.index] at h
+  | a :: Γ, x, i, h => by
+      rw [Stack.index_cons] at h
+      split at h
+      · rename_i ha; simp at h; subst h; simp [ha]
+      · cases h' : Stack.index Γ x with
+        | none => simp [h'] at h
+        | some j =>
+          simp [h'] at h; subst h
+          simpa using Stack.index_get Γ x j h'
+
+theorem Stack.bindAll_eq : ∀ (names : List Name) (Γ Γ' : Stack), Stack.bindAll Γ names = some Γ' →
+    Γ' = Γ.pushAll names
+  | [], Γ, Γ', h => by simp [Stack.bindAll] at h; simp [Stack.pushAll, h]
+  | x :: xs, Γ, Γ', h => by
+      simp only [Stack.bindAll] at h
+      rw [Stack.bind_eq] at h
+      by_cases hx : x ≠ placeholder ∧ (Stack.index Γ x).isSome
+      · rw [if_pos hx] at h; simp at h
+      · rw [if_neg hx] at h
+        have := Stack.bindAll_eq xs _ _ h
+        simp [this, Stack.pushAll]
+
+/-- the specification produces a hole only for `_`, and then the hole has shift 0 -/
+theorem toDB_hole {Γ : Stack} {r g v es id sh} (h : toDB Γ (.mk r g v es) = some (.hole id sh)) :
+    sh = 0 ∧ v = .var placeholder := by
+  simp only [toDB] at h
+  cases v <;> simp only [toDBV] at h <;> (repeat' split at h) <;> (try (simp at h))
+  rename_i hx
+  obtain ⟨_, rfl⟩ := h
+  exact ⟨rfl, by rw [hx]⟩
+
+theorem letNames_nonlet {r g v es} (hv : ∀ x a d b, v ≠ .let_ x a d b) :
+    letNames (.mk r g v es) = [] := by
+  cases v <;> simp [letNames] <;> exact absurd rfl (hv _ _ _ _)
+
+/-- what the round trip says of a chain -/
+def ChainRT (s : Src) : Prop :=
+  ∀ (Γ : Stack) (n i : Nat) (rest : Defs) (b : Tm),
+    i + (letNames s).length = n → toDBChain Γ n i s = some (rest, b) →
+    rest.binderNames = letNames s ∧ ∃ b', fromDB Γ b = some b' ∧ fromDBDefs Γ rest b' = some (stripLayout s)
+
+theorem rt_of_chain (s : Src) (hc : ChainRT s) :
+    ∀ (Γ : Stack) (t : Tm), toDB Γ s = some t → fromDB Γ t = some (stripLayout s) := by
+  intro Γ t h
+  obtain ⟨r, g, v, es⟩ := s
+  by_cases hv : ∃ x a d b, v = .let_ x a d b
+  · obtain ⟨x, ann, defn, body, rfl⟩ := hv
+    simp only [toDB] at h
+    obtain ⟨Γ', a, d, rb, hb, ha, hd, hch⟩ := toDBV_let_inv h
+    obtain ⟨rest, b⟩ := rb
+    simp only [toDBV, hb, ha, hd, hch, Option.some.injEq] at h
+    subst h
+    have hch' : toDBChain Γ' (x.name :: letNames body).length 0 (.mk r g (.let_ x ann defn body) es)
+        = some (.cons x.name a d rest, b) := by
+      simp only [toDBChain, toDBChainV, ha, hd, Nat.zero_add, hch]
+    obtain ⟨hn, b', hb1, hb2⟩ := hc Γ' _ 0 _ _ (by simp [letNames]) hch'
+    have hΓ := Stack.bindAll_eq _ _ _ hb
+    simp only [letNames] at hn
+    simp only [fromDB, hn, ← hΓ, hb1, hb2]
+  · have hv' : ∀ x a d b, v ≠ .let_ x a d b := fun x a d b e => hv ⟨x, a, d, b, e⟩
+    have hch : toDBChain Γ 0 0 (.mk r g v es) = some (.nil, t) := by
+      simp only [toDBChain, C08_chain_body_is_toDB Γ 0 0 v hv']
+      simp only [toDB] at h
+      simp [h]
+    obtain ⟨_, b', hb1, hb2⟩ := hc Γ 0 0 _ _ (by simp [letNames_nonlet hv']) hch
+    simp only [fromDBDefs, Option.some.injEq] at hb2
+    rw [hb1, hb2]
+
+theorem normLamAnn_some_strip {r g v es} (hv : v ≠ .var placeholder) :
+    normLamAnn (.some (stripLayout (.mk r g v es))) = .some (stripLayout (.mk r g v es)) := by
+  cases v <;> simp only [stripLayout, layoutB, layoutVB, normLamAnn]
+  rename_i x
+  have : x ≠ placeholder := fun e => hv (by rw [e])
+  simp [this]
+
+mutual
+theorem chainRT : ∀ (s : Src), ChainRT s
+  | .mk r g .parseError es => by
+      intro Γ n i rest b hn h; simp [toDBChain, toDBChainV] at h
+  | .mk r g .type es | .mk r g .int es | .mk r g .bool es | .mk r g .tt es | .mk r g .ff es
+  | .mk r g (.lit _) es => by
+      intro Γ n i rest b hn h
+      simp only [toDBChain, toDBChainV, Option.some.injEq, Prod.mk.injEq] at h
+      obtain ⟨rfl, rfl⟩ := h
+      simp [Defs.binderNames, letNames, fromDB, fromDBDefs, stripLayout, layoutB, layoutVB, bareSrc]
+  | .mk r g (.var x) es => by
+      intro Γ n i rest b hn h
+      simp only [toDBChain, toDBChainV] at h
+      split at h
+      · rename_i hx
+        simp only [Option.some.injEq, Prod.mk.injEq] at h
+        obtain ⟨rfl, rfl⟩ := h
+        simp [Defs.binderNames, letNames, fromDB, fromDBDefs, stripLayout, layoutB, layoutVB, bareSrc, hx]
+      · split at h
+        · rename_i j hj
+          simp only [Option.some.injEq, Prod.mk.injEq] at h
+          obtain ⟨rfl, rfl⟩ := h
+          simp [Defs.binderNames, letNames, fromDB, fromDBDefs, stripLayout, layoutB, layoutVB, bareSrc,
+            Stack.index_get _ _ _ hj]
+        · simp at h
+  | .mk r g (.lam x im dom body) es => by
+      intro Γ n i rest b hn h
+      simp only [toDBChain, toDBChainV] at h
+      split at h
+      · rename_i d Γ' hd hb
+        rw [Stack.bind_eq] at hb
+        split at hb
+        · simp at hb
+        · simp only [Option.some.injEq] at hb
+          subst hb
+          split at h
+          · rename_i b' hbody
+            simp only [Option.some.injEq, Prod.mk.injEq] at h
+            obtain ⟨rfl, rfl⟩ := h
+            have h1 := optRT dom Γ d hd
+            have h2 := rt_of_chain body (chainRT body) _ _ hbody
+            simp [Defs.binderNames, letNames, fromDB, fromDBDefs, stripLayout, layoutB, layoutVB, bareSrc, bareVar, h1, h2]
+          · simp at h
+      · simp at h
+  | .mk r g (.pi x im dom cod) es => by
+      intro Γ n i rest b hn h
+      simp only [toDBChain, toDBChainV] at h
+      split at h
+      · rename_i d Γ' hd hb
+        rw [Stack.bind_eq] at hb
+        split at hb
+        · simp at hb
+        · simp only [Option.some.injEq] at hb
+          subst hb
+          split at h
+          · rename_i b' hbody
+            simp only [Option.some.injEq, Prod.mk.injEq] at h
+            obtain ⟨rfl, rfl⟩ := h
+            have h1 := rt_of_chain dom (chainRT dom) _ _ hd
+            have h2 := rt_of_chain cod (chainRT cod) _ _ hbody
+            simp [Defs.binderNames, letNames, fromDB, fromDBDefs, stripLayout, layoutB, layoutVB, bareSrc, bareVar, h1, h2]
+          · simp at h
+      · simp at h
+  | .mk r g (.app f a) es => by
+      intro Γ n i rest b hn h
+      simp only [toDBChain, toDBChainV] at h
+      split at h
+      · rename_i f' a' hf ha
+        simp only [Option.some.injEq, Prod.mk.injEq] at h
+        obtain ⟨rfl, rfl⟩ := h
+        have h1 := rt_of_chain f (chainRT f) _ _ hf
+        have h2 := rt_of_chain a (chainRT a) _ _ ha
+        simp [Defs.binderNames, letNames, fromDB, fromDBDefs, stripLayout, layoutB, layoutVB, bareSrc, h1, h2]
+      · simp at h
+  | .mk r g (.neg a) es => by
+      intro Γ n i rest b hn h
+      simp only [toDBChain, toDBChainV] at h
+      split at h
+      · rename_i a' ha
+        simp only [Option.some.injEq, Prod.mk.injEq] at h
+        obtain ⟨rfl, rfl⟩ := h
+        have h1 := rt_of_chain a (chainRT a) _ _ ha
+        simp [Defs.binderNames, letNames, fromDB, fromDBDefs, stripLayout, layoutB, layoutVB, bareSrc, h1]
+      · simp at h
+  | .mk r g (.bin op a c) es => by
+      intro Γ n i rest b hn h
+      simp only [toDBChain, toDBChainV] at h
+      split at h
+      · rename_i a' c' ha hc
+        simp only [Option.some.injEq, Prod.mk.injEq] at h
+        obtain ⟨rfl, rfl⟩ := h
+        have h1 := rt_of_chain a (chainRT a) _ _ ha
+        have h2 := rt_of_chain c (chainRT c) _ _ hc
+        simp [Defs.binderNames, letNames, fromDB, fromDBDefs, stripLayout, layoutB, layoutVB, bareSrc, h1, h2]
+      · simp at h
+  | .mk r g (.ite c a e) es => by
+      intro Γ n i rest b hn h
+      simp only [toDBChain, toDBChainV] at h
+      split at h
+      · rename_i c' a' e' hc ha he
+        simp only [Option.some.injEq, Prod.mk.injEq] at h
+        obtain ⟨rfl, rfl⟩ := h
+        have h0 := rt_of_chain c (chainRT c) _ _ hc
+        have h1 := rt_of_chain a (chainRT a) _ _ ha
+        have h2 := rt_of_chain e (chainRT e) _ _ he
+        simp [Defs.binderNames, letNames, fromDB, fromDBDefs, stripLayout, layoutB, layoutVB, bareSrc, h0, h1, h2]
+      · simp at h
+  | .mk r g (.let_ x ann defn body) es => by
+      intro Γ n i rest b hn h
+      simp only [toDBChain] at h
+      obtain ⟨a, d, rb, ha, hd, hc⟩ := toDBChainV_let_inv h
+      obtain ⟨rest', b'⟩ := rb
+      simp only [toDBChainV, ha, hd, hc, Option.some.injEq, Prod.mk.injEq] at h
+      obtain ⟨rfl, rfl⟩ := h
+      simp only [letNames, List.length_cons] at hn
+      obtain ⟨hnames, b'', hb1, hb2⟩ := chainRT body Γ n (i + 1) rest' b' (by omega) hc
+      have h0 := annRT ann Γ n i a (by omega) ha
+      have h1 := rt_of_chain defn (chainRT defn) _ _ hd
+      refine ⟨by simp [Defs.binderNames, letNames, hnames], b'', hb1, ?_⟩
+      simp [fromDBDefs, stripLayout, layoutB, layoutVB, bareSrc, bareVar, h0, h1, hb2]
+theorem optRT : ∀ (o : OptSrc) (Γ : Stack) (t : Tm), toDBOpt Γ o = some t →
+    (if t.isHole0 then some OptSrc.none else (fromDB Γ t).map OptSrc.some)
+      = some (normLamAnn (layoutOptB true o))
+  | .none, Γ, t, h => by
+      simp only [toDBOpt, Option.some.injEq] at h
+      subst h
+      simp [Tm.isHole0, layoutOptB, normLamAnn]
+  | .some (.mk r g v es), Γ, t, h => by
+      simp only [toDBOpt] at h
+      have h1 := rt_of_chain _ (chainRT (.mk r g v es)) _ _ h
+      by_cases hv : v = .var placeholder
+      · subst hv
+        simp [toDB, toDBV] at h
+        subst h
+        simp [Tm.isHole0, layoutOptB, layoutB, layoutVB, normLamAnn]
+      · have : t.isHole0 = false := by
+          cases t <;> try (simp [Tm.isHole0])
+          exact absurd (toDB_hole h).2 hv
+        simp only [this, h1, layoutOptB]
+        rw [normLamAnn_some_strip hv]
+        simp
+theorem annRT : ∀ (o : OptSrc) (Γ : Stack) (n i : Nat) (t : Tm), i < n → toDBAnn Γ o n i = some t →
+    (if t.isHoleS then some OptSrc.none else (fromDB Γ t).map OptSrc.some)
+      = some (layoutOptB true o)
+  | .none, Γ, n, i, t, hi, h => by
+      simp only [toDBAnn, Option.some.injEq] at h
+      subst h
+      obtain ⟨k, hk⟩ : ∃ k, n - i = k + 1 := ⟨n - i - 1, by omega⟩
+      simp [Tm.isHoleS, layoutOptB, hk]
+  | .some (.mk r g v es), Γ, n, i, t, hi, h => by
+      simp only [toDBAnn] at h
+      have h1 := rt_of_chain _ (chainRT (.mk r g v es)) _ _ h
+      have : t.isHoleS = false := by
+        cases t <;> try (simp [Tm.isHoleS])
+        have := (toDB_hole h).1
+        subst this
+        rfl
+      simp [this, h1, layoutOptB]
+end
+
+/-- ROUND TRIP.  Reading the indices of the resolved tree back through the binder stack gives the
+source program back, up to layout (ranges, redundant parentheses — in particular the parentheses in
+`x = 1; (y = 2; y)`, which gram flattens into the group `x = 1; y = 2; y` —, error listings) and up to
+writing a λ-annotation as `_` instead of omitting it. -/
+def C08_roundtrip_stmt : Prop :=
+  ∀ (Γ : Stack) (s : Src) (t : Tm), toDB Γ s = some t → fromDB Γ t = some (stripLayout s)
+theorem C08_roundtrip : C08_roundtrip_stmt :=
+  fun Γ s t h => rt_of_chain s (chainRT s) Γ t h
+
+/-- Two programs with the same resolved tree are the same program (up to `stripLayout`): the indices
+determine the binding structure completely. -/
+def C08_toDB_injective_stmt : Prop :=
+  ∀ (Γ : Stack) (s₁ s₂ : Src) (t : Tm), toDB Γ s₁ = some t → toDB Γ s₂ = some t → stripLayout s₁ = stripLayout s₂
+theorem C08_toDB_injective : C08_toDB_injective_stmt := by
+  intro Γ s₁ s₂ t h₁ h₂
+  have e₁ := C08_roundtrip Γ s₁ t h₁
+  have e₂ := C08_roundtrip Γ s₂ t h₂
+  rw [e₁] at e₂
+  exact Option.some.inj e₂
+
+private def sv (x : Name) : Src := .mk ⟨0, 0⟩ false (.var x) []
+private def sl (x : Name) (b : Src) : Src := .mk ⟨0, 0⟩ false (.lam ⟨⟨0, 0⟩, x⟩ false .none b) []
+private def sla (x : Name) (a b : Src) : Src := .mk ⟨0, 0⟩ false (.lam ⟨⟨0, 0⟩, x⟩ false (.some a) b) []
+private def sa (f a : Src) : Src := .mk ⟨0, 0⟩ false (.app f a) []
+
+/-- With layout erasure ALONE the two statements are false: `x => x` and `(x : _) => x` resolve to the
+same tree (in gram too: both annotations become a fresh hole of the λ). -/
+def C08_toDB_injective_unrestricted : Prop :=
+  ∀ (Γ : Stack) (s₁ s₂ : Src) (t : Tm), toDB Γ s₁ = some t → toDB Γ s₂ = some t →
+    eraseLayout s₁ = eraseLayout s₂
+theorem C08_toDB_injective_refuted : ¬ C08_toDB_injective_unrestricted := by
+  intro h
+  have := h [] (sl 1 (sv 1)) (sla 1 (sv 0) (sv 1)) (.lam 1 false (.hole 0 0) (.var 1 0))
+    (by decide) (by decide)
+  simp [eraseLayout, layoutB, layoutVB, layoutOptB, sl, sla] at this
+def C08_roundtrip_unrestricted : Prop :=
+  ∀ (Γ : Stack) (s : Src) (t : Tm), toDB Γ s = some t → fromDB Γ t = some (eraseLayout s)
+theorem C08_roundtrip_refuted : ¬ C08_roundtrip_unrestricted := by
+  intro h
+  have := h [] (sla 1 (sv 0) (sv 1)) (.lam 1 false (.hole 0 0) (.var 1 0)) (by decide)
+  simp [eraseLayout, layoutB, layoutVB, layoutOptB, sla, fromDB, Tm.isHole0, bareSrc, bareVar, slot, placeholder] at this
+
+/-! ## The scope clauses, in the property's words -/
+
+theorem Stack.index_append : ∀ (Δ Γ : Stack) (x : Name), some x ∉ Δ →
+    Stack.index (Δ ++ Γ) x = (Stack.index Γ x).map (· + Δ.length)
+  | [], Γ, x, _ => by cases h : Stack.index Γ x <;> simp [h]
+  | a :: Δ, Γ, x, h => by
+      have ha : ¬ a = some x := fun e => h (by simp [e])
+      have hΔ : some x ∉ Δ := fun e => h (by simp [e])
+      rw [List.cons_append, Stack.index_cons, if_neg ha, Stack.index_append Δ Γ x hΔ]
+      cases Stack.index Γ x <;> simp
+      omega
+
+theorem toDB_var_some {Γ : Stack} {x : Name} {i : Nat} (r g es) (hx : x ≠ placeholder)
+    (h : Stack.index Γ x = some i) : toDB Γ (.mk r g (.var x) es) = some (.var x i) := by
+  simp [toDB, toDBV, hx, h]
+
+/-- PARAMETER SCOPE.  A λ's annotation is resolved OUTSIDE the parameter (in `Γ`), its body with the
+parameter pushed (`slot x :: Γ`: the name, or an anonymous slot for `_`); likewise a Π's domain and
+codomain; re-binding a name in scope is rejected.  An occurrence of the parameter gets as index the
+number of binders crossed since. -/
+def C08_param_scope_stmt : Prop :=
+  (∀ (Γ : Stack) (r : SourceRange) (g : Bool) (es : List PErr) (x : SrcVar) (im : Bool) (A : OptSrc)
+      (b : Src),
+    toDB Γ (.mk r g (.lam x im A b) es) =
+      if x.name ≠ placeholder ∧ (Γ.index x.name).isSome then none
+      else match toDBOpt Γ A, toDB (slot x.name :: Γ) b with
+        | some d, some b' => some (.lam x.name im d b')
+        | _, _ => none) ∧
+  (∀ (Γ : Stack) (r : SourceRange) (g : Bool) (es : List PErr) (x : SrcVar) (im : Bool) (A B : Src),
+    toDB Γ (.mk r g (.pi x im A B) es) =
+      if x.name ≠ placeholder ∧ (Γ.index x.name).isSome then none
+      else match toDB Γ A, toDB (slot x.name :: Γ) B with
+        | some d, some c => some (.pi x.name im d c)
+        | _, _ => none) ∧
+  (∀ (Γ Δ : Stack) (x : Name) (r : SourceRange) (g : Bool) (es : List PErr),
+    x ≠ placeholder → some x ∉ Δ →
+    toDB (Δ ++ slot x :: Γ) (.mk r g (.var x) es) = some (.var x Δ.length))
+theorem C08_param_scope : C08_param_scope_stmt := by
+  refine ⟨?_, ?_, ?_⟩
+  · intro Γ r g es x im A b
+    simp only [toDB, toDBV, Stack.bind_eq]
+    by_cases h : x.name ≠ placeholder ∧ (Γ.index x.name).isSome
+    · rw [if_pos h, if_pos h]; cases toDBOpt Γ A <;> rfl
+    · rw [if_neg h, if_neg h]
+      cases hA : toDBOpt Γ A <;> cases hB : toDB (slot x.name :: Γ) b <;> simp [hB]
+  · intro Γ r g es x im A B
+    simp only [toDB, toDBV, Stack.bind_eq]
+    by_cases h : x.name ≠ placeholder ∧ (Γ.index x.name).isSome
+    · rw [if_pos h, if_pos h]; cases toDB Γ A <;> rfl
+    · rw [if_neg h, if_neg h]
+      cases hA : toDB Γ A <;> cases hB : toDB (slot x.name :: Γ) B <;> simp [hB]
+  · intro Γ Δ x r g es hx hΔ
+    apply toDB_var_some r g es hx
+    rw [Stack.index_append Δ _ x hΔ, Stack.index_cons]
+    simp [slot, hx]
+
+/-- the definitions of a group, resolved one after the other in one and the same stack -/
+def toDBDefs (Γ : Stack) (n : Nat) : Nat → List (SrcVar × OptSrc × Src) → Option Defs
+  | _, [] => some .nil
+  | i, (v, a, d) :: rest =>
+    match toDBAnn Γ a n i, toDB Γ d, toDBDefs Γ n (i + 1) rest with
+    | some a', some d', some r => some (.cons v.name a' d' r)
+    | _, _, _ => none
+
+theorem toDBChain_eq_defs : ∀ (t : Src) (Γ : Stack) (n i : Nat),
+    toDBChain Γ n i t =
+      match toDBDefs Γ n i (collectDefinitions t).1, toDB Γ (collectDefinitions t).2 with
+      | some r, some b => some (r, b)
+      | _, _ => none
+  | .mk _ _ (.let_ v ann defn body) _, Γ, n, i => by
+      simp only [toDBChain, toDBChainV, collectDefinitions, toDBDefs]
+      rw [toDBChain_eq_defs body Γ n (i + 1)]
+      cases toDBAnn Γ ann n i <;> cases toDB Γ defn <;>
+        cases toDBDefs Γ n (i + 1) (collectDefinitions body).1 <;>
+        cases toDB Γ (collectDefinitions body).2 <;> rfl
+  | .mk r g .parseError es, Γ, n, i | .mk r g .type es, Γ, n, i | .mk r g (.var _) es, Γ, n, i
+  | .mk r g (.lam ..) es, Γ, n, i | .mk r g (.pi ..) es, Γ, n, i | .mk r g (.app ..) es, Γ, n, i
+  | .mk r g .int es, Γ, n, i | .mk r g (.lit _) es, Γ, n, i | .mk r g (.neg _) es, Γ, n, i
+  | .mk r g (.bin ..) es, Γ, n, i | .mk r g .bool es, Γ, n, i | .mk r g .tt es, Γ, n, i
+  | .mk r g .ff es, Γ, n, i | .mk r g (.ite ..) es, Γ, n, i => by
+      simp only [toDBChain, collectDefinitions, toDBDefs, toDB]
+      rw [C08_chain_body_is_toDB Γ n i _ (by simp)]
+      cases toDBV Γ _ <;> rfl
+
+theorem Stack.bindAll_nth : ∀ (names : List Name) (Γ Γ' : Stack) (i : Nat) (x : Name),
+    Stack.bindAll Γ names = some Γ' → names[i]? = some x → x ≠ placeholder →
+    Stack.index Γ' x = some (names.length - 1 - i)
+  | [], _, _, _, _, _, h, _ => by simp at h
+  | y :: ys, Γ, Γ', i, x, hb, hi, hx => by
+      simp only [Stack.bindAll, Stack.bind_eq] at hb
+      by_cases hy : y ≠ placeholder ∧ (Stack.index Γ y).isSome
+      · rw [if_pos hy] at hb; simp at hb
+      · rw [if_neg hy] at hb
+        simp only at hb
+        cases i with
+        | zero =>
+          simp at hi; subst hi
+          have h0 : Stack.index (slot y :: Γ) y = some 0 := by
+            rw [Stack.index_cons]; simp [slot, hx]
+          have hmem : y ∉ ys := fun hm => by
+            have := ((bindAll_index ys _ _ hb).2 y hx).1 hm
+            rw [h0] at this; simp at this
+          rw [((bindAll_index ys _ _ hb).2 y hx).2 hmem, h0]
+          simp
+        | succ j =>
+          simp at hi
+          have := Stack.bindAll_nth ys _ _ j x hb hi hx
+          rw [this]
+          have : j < ys.length := by
+            rcases List.getElem?_eq_some_iff.mp hi with ⟨h, _⟩; exact h
+          simp; omega
+
+/-- GROUP SCOPE.  All `n` names of a group are pushed first (`Stack.bindAll`, source order, so that
+the last definition is index 0; re-binding is rejected); then EVERY annotation, EVERY definition and
+the body are resolved in that one stack.  An occurrence, anywhere below, of the `i`-th name with `k`
+further binders crossed gets index `k + (n - 1 - i)`. -/
+def C08_group_scope_stmt : Prop :=
+  (∀ (Γ : Stack) (s : Src) (r : SourceRange) (g : Bool) (es : List PErr) (x : SrcVar) (ann : OptSrc)
+      (defn body : Src), s = .mk r g (.let_ x ann defn body) es →
+    toDB Γ s =
+      match Γ.bindAll (defNames (collectDefinitions s).1) with
+      | none => none
+      | some Γ' =>
+        match toDBDefs Γ' (collectDefinitions s).1.length 0 (collectDefinitions s).1,
+              toDB Γ' (collectDefinitions s).2 with
+        | some ds, some b => some (.letg ds b)
+        | _, _ => none) ∧
+  (∀ (Γ Γ' : Stack) (names : List Name), Γ.bindAll names = some Γ' →
+    Γ' = (names.map slot).reverse ++ Γ) ∧
+  (∀ (Γ Γ' Δ : Stack) (names : List Name) (i : Nat) (x : Name) (r : SourceRange) (g : Bool)
+      (es : List PErr),
+    Γ.bindAll names = some Γ' → names[i]? = some x → x ≠ placeholder → some x ∉ Δ →
+    toDB (Δ ++ Γ') (.mk r g (.var x) es) = some (.var x (Δ.length + (names.length - 1 - i))))
+theorem C08_group_scope : C08_group_scope_stmt := by
+  refine ⟨?_, ?_, ?_⟩
+  · intro Γ s r g es x ann defn body hs
+    subst hs
+    have hn : defNames (collectDefinitions (.mk r g (.let_ x ann defn body) es)).1
+        = x.name :: letNames body := by
+      rw [collectDefinitions_names]; rfl
+    have hl : (collectDefinitions (.mk r g (.let_ x ann defn body) es)).1.length
+        = (x.name :: letNames body).length := by
+      rw [← hn, defNames, List.length_map]
+    rw [hn, hl]
+    simp only [toDB, toDBV]
+    cases Stack.bindAll Γ (x.name :: letNames body) with
+    | none => rfl
+    | some Γ' =>
+      simp only [collectDefinitions, toDBDefs]
+      rw [toDBChain_eq_defs body Γ' _ 1]
+      cases toDBAnn Γ' ann (x.name :: letNames body).length 0 <;> cases toDB Γ' defn <;>
+        cases toDBDefs Γ' (x.name :: letNames body).length (0 + 1) (collectDefinitions body).1 <;>
+        cases toDB Γ' (collectDefinitions body).2 <;> rfl
+  · intro Γ Γ' names h
+    exact Stack.bindAll_eq names Γ Γ' h
+  · intro Γ Γ' Δ names i x r g es hb hi hx hΔ
+    apply toDB_var_some r g es hx
+    rw [Stack.index_append Δ _ x hΔ, Stack.bindAll_nth names Γ Γ' i x hb hi hx]
+    simp; omega
+
+/-- PLACEHOLDER.  `_` as a binder never fails and pushes an anonymous slot, which every lookup skips:
+an occurrence resolves only to a slot carrying its own name.  `_` as an expression is a hole in every
+context, and in the model each occurrence allocates its own cell (`nextHole` is bumped). -/
+def C08_placeholder_stmt : Prop :=
+  (∀ Γ : Stack, Γ.bind placeholder = some (none :: Γ)) ∧
+  (∀ (Γ : Stack) (x : Name), Stack.index (none :: Γ) x = (Stack.index Γ x).map (· + 1)) ∧
+  (∀ (Γ : Stack) (r : SourceRange) (g : Bool) (es : List PErr) (x : Name) (t : Tm),
+    toDB Γ (.mk r g (.var x) es) = some t →
+      (x = placeholder ∧ t = .hole 0 0) ∨
+      (x ≠ placeholder ∧ ∃ i, t = .var x i ∧ Γ[i]? = some (some x))) ∧
+  (∀ (Γ : Stack) (r : SourceRange) (g : Bool) (es : List PErr),
+    toDB Γ (.mk r g (.var placeholder) es) = some (.hole 0 0)) ∧
+  (∀ (r : SourceRange) (g : Bool) (es : List PErr) (depth : Nat) (st : RState),
+    st.ctx.get placeholder = none →
+    resolve (.mk r g (.var placeholder) es) depth st
+      = some (.mk (some r) (.hole st.nextHole 0), { st with nextHole := st.nextHole + 1 }))
+theorem C08_placeholder : C08_placeholder_stmt := by
+  refine ⟨?_, ?_, ?_, ?_, ?_⟩
+  · intro Γ; simp [Stack.bind]
+  · intro Γ x; rw [Stack.index_cons]; simp
+  · intro Γ r g es x t h
+    simp only [toDB, toDBV] at h
+    by_cases hx : x = placeholder
+    · simp [hx] at h; exact .inl ⟨hx, h.symm⟩
+    · rw [if_neg hx] at h
+      cases hi : Stack.index Γ x with
+      | none => simp [hi] at h
+      | some i =>
+        simp [hi] at h
+        exact .inr ⟨hx, i, h.symm, Stack.index_get Γ x i hi⟩
+  · intro Γ r g es; simp [toDB, toDBV]
+  · intro r g es depth st h
+    simp [resolve, resolveAux, h, bind, StateT.bind, pure, StateT.pure]
+
+/-! ### Rejection -/
+
+mutual
+/-- `IllScoped Γ s`: somewhere in `s` a name (≠ `_`) occurs that is not bound at that point, or a binder
+re-binds a name bound at that point (or `s` contains a syntax-error node, which the specification
+does not resolve). -/
+inductive IllScoped : Stack → Src → Prop
+  | parseError {Γ r g es} : IllScoped Γ (.mk r g .parseError es)
+  | unbound {Γ r g es x} : x ≠ placeholder → Stack.index Γ x = none → IllScoped Γ (.mk r g (.var x) es)
+  | lamAnn {Γ r g es x im A b} : IllScoped Γ A → IllScoped Γ (.mk r g (.lam x im (.some A) b) es)
+  | lamRebind {Γ r g es x im A b} : x.name ≠ placeholder → (Stack.index Γ x.name).isSome →
+      IllScoped Γ (.mk r g (.lam x im A b) es)
+  | lamBody {Γ r g es x im A b} : IllScoped (slot x.name :: Γ) b → IllScoped Γ (.mk r g (.lam x im A b) es)
+  | piDom {Γ r g es x im A B} : IllScoped Γ A → IllScoped Γ (.mk r g (.pi x im A B) es)
+  | piRebind {Γ r g es x im A B} : x.name ≠ placeholder → (Stack.index Γ x.name).isSome →
+      IllScoped Γ (.mk r g (.pi x im A B) es)
+  | piCod {Γ r g es x im A B} : IllScoped (slot x.name :: Γ) B → IllScoped Γ (.mk r g (.pi x im A B) es)
+  | appL {Γ r g es f a} : IllScoped Γ f → IllScoped Γ (.mk r g (.app f a) es)
+  | appR {Γ r g es f a} : IllScoped Γ a → IllScoped Γ (.mk r g (.app f a) es)
+  | neg {Γ r g es a} : IllScoped Γ a → IllScoped Γ (.mk r g (.neg a) es)
+  | binL {Γ r g es op a b} : IllScoped Γ a → IllScoped Γ (.mk r g (.bin op a b) es)
+  | binR {Γ r g es op a b} : IllScoped Γ b → IllScoped Γ (.mk r g (.bin op a b) es)
+  | iteC {Γ r g es c a b} : IllScoped Γ c → IllScoped Γ (.mk r g (.ite c a b) es)
+  | iteT {Γ r g es c a b} : IllScoped Γ a → IllScoped Γ (.mk r g (.ite c a b) es)
+  | iteE {Γ r g es c a b} : IllScoped Γ b → IllScoped Γ (.mk r g (.ite c a b) es)
+  /-- some name of the group is already in scope (outside, or earlier in the group) -/
+  | letRebind {Γ r g es x ann d body} : Stack.bindAll Γ (x.name :: letNames body) = none →
+      IllScoped Γ (.mk r g (.let_ x ann d body) es)
+  /-- with all names of the group pushed, an annotation, a definition or the body is ill-scoped -/
+  | letIn {Γ Γ' r g es x ann d body} : Stack.bindAll Γ (x.name :: letNames body) = some Γ' →
+      IllScopedChain Γ' (.mk r g (.let_ x ann d body) es) → IllScoped Γ (.mk r g (.let_ x ann d body) es)
+/-- in the stack of the group: some annotation, some definition, or the innermost body -/
+inductive IllScopedChain : Stack → Src → Prop
+  | ann {Γ r g es x A d body} : IllScoped Γ A → IllScopedChain Γ (.mk r g (.let_ x (.some A) d body) es)
+  | defn {Γ r g es x ann d body} : IllScoped Γ d → IllScopedChain Γ (.mk r g (.let_ x ann d body) es)
+  | rest {Γ r g es x ann d body} : IllScopedChain Γ body →
+      IllScopedChain Γ (.mk r g (.let_ x ann d body) es)
+  | body {Γ r g es v} : (∀ x a d b, v ≠ .let_ x a d b) → IllScoped Γ (.mk r g v es) →
+      IllScopedChain Γ (.mk r g v es)
+end
+
+theorem illChain_nonlet {Γ r g v es} (hv : ∀ x a d b, v ≠ .let_ x a d b) :
+    IllScopedChain Γ (.mk r g v es) ↔ IllScoped Γ (.mk r g v es) := by
+  constructor
+  · intro h
+    cases h with
+    | ann _ => exact absurd rfl (hv _ _ _ _)
+    | defn _ => exact absurd rfl (hv _ _ _ _)
+    | rest _ => exact absurd rfl (hv _ _ _ _)
+    | body _ h => exact h
+  · exact fun h => .body hv h
+
+/-- `IllScoped` for an optional annotation -/
+def IllScopedOpt (Γ : Stack) : OptSrc → Prop
+  | .none => False
+  | .some A => IllScoped Γ A
+
+theorem ill_lam_iff {Γ r g es x im A b} : IllScoped Γ (.mk r g (.lam x im A b) es) ↔
+    IllScopedOpt Γ A ∨ (x.name ≠ placeholder ∧ (Stack.index Γ x.name).isSome) ∨
+      IllScoped (slot x.name :: Γ) b := by
+  constructor
+  · intro h
+    cases h with
+    | lamAnn h => exact .inl h
+    | lamRebind h1 h2 => exact .inr (.inl ⟨h1, h2⟩)
+    | lamBody h => exact .inr (.inr h)
+  · rintro (h | ⟨h1, h2⟩ | h)
+    · cases A with
+      | none => exact h.elim
+      | some A => exact .lamAnn h
+    · exact .lamRebind h1 h2
+    · exact .lamBody h
+
+theorem ill_pi_iff {Γ r g es x im A B} : IllScoped Γ (.mk r g (.pi x im A B) es) ↔
+    IllScoped Γ A ∨ (x.name ≠ placeholder ∧ (Stack.index Γ x.name).isSome) ∨
+      IllScoped (slot x.name :: Γ) B := by
+  constructor
+  · intro h
+    cases h with
+    | piDom h => exact .inl h
+    | piRebind h1 h2 => exact .inr (.inl ⟨h1, h2⟩)
+    | piCod h => exact .inr (.inr h)
+  · rintro (h | ⟨h1, h2⟩ | h)
+    · exact .piDom h
+    · exact .piRebind h1 h2
+    · exact .piCod h
+
+theorem ill_app_iff {Γ r g es f a} : IllScoped Γ (.mk r g (.app f a) es) ↔
+    IllScoped Γ f ∨ IllScoped Γ a := by
+  constructor
+  · intro h
+    cases h with
+    | appL h => exact .inl h
+    | appR h => exact .inr h
+  · rintro (h | h)
+    · exact .appL h
+    · exact .appR h
+
+theorem ill_neg_iff {Γ r g es a} : IllScoped Γ (.mk r g (.neg a) es) ↔ IllScoped Γ a := by
+  constructor
+  · intro h; cases h with | neg h => exact h
+  · exact fun h => .neg h
+
+theorem ill_bin_iff {Γ r g es op a b} : IllScoped Γ (.mk r g (.bin op a b) es) ↔
+    IllScoped Γ a ∨ IllScoped Γ b := by
+  constructor
+  · intro h
+    cases h with
+    | binL h => exact .inl h
+    | binR h => exact .inr h
+  · rintro (h | h)
+    · exact .binL h
+    · exact .binR h
+
+theorem ill_ite_iff {Γ r g es c a b} : IllScoped Γ (.mk r g (.ite c a b) es) ↔
+    IllScoped Γ c ∨ IllScoped Γ a ∨ IllScoped Γ b := by
+  constructor
+  · intro h
+    cases h with
+    | iteC h => exact .inl h
+    | iteT h => exact .inr (.inl h)
+    | iteE h => exact .inr (.inr h)
+  · rintro (h | h | h)
+    · exact .iteC h
+    · exact .iteT h
+    · exact .iteE h
+
+theorem ill_var_iff {Γ r g es x} : IllScoped Γ (.mk r g (.var x) es) ↔
+    x ≠ placeholder ∧ Stack.index Γ x = none := by
+  constructor
+  · intro h; cases h with | unbound h1 h2 => exact ⟨h1, h2⟩
+  · exact fun h => .unbound h.1 h.2
+
+theorem ill_let_iff {Γ r g es x ann d body} : IllScoped Γ (.mk r g (.let_ x ann d body) es) ↔
+    Stack.bindAll Γ (x.name :: letNames body) = none ∨
+    ∃ Γ', Stack.bindAll Γ (x.name :: letNames body) = some Γ' ∧
+      IllScopedChain Γ' (.mk r g (.let_ x ann d body) es) := by
+  constructor
+  · intro h
+    cases h with
+    | letRebind h => exact .inl h
+    | letIn h1 h2 => exact .inr ⟨_, h1, h2⟩
+  · rintro (h | ⟨Γ', h1, h2⟩)
+    · exact .letRebind h
+    · exact .letIn h1 h2
+
+theorem illChain_let_iff {Γ r g es x ann d body} :
+    IllScopedChain Γ (.mk r g (.let_ x ann d body) es) ↔
+      IllScopedOpt Γ ann ∨ IllScoped Γ d ∨ IllScopedChain Γ body := by
+  constructor
+  · intro h
+    cases h with
+    | ann h => exact .inl h
+    | defn h => exact .inr (.inl h)
+    | rest h => exact .inr (.inr h)
+    | body hv _ => exact absurd rfl (hv _ _ _ _)
+  · rintro (h | h | h)
+    · cases ann with
+      | none => exact h.elim
+      | some A => exact .ann h
+    · exact .defn h
+    · exact .rest h
+
+/-- what rejection says of a chain -/
+def ChainIll (s : Src) : Prop :=
+  ∀ (Γ : Stack) (n i : Nat), toDBChain Γ n i s = none ↔ IllScopedChain Γ s
+
+theorem ill_of_chain (s : Src) (hc : ChainIll s) : ∀ Γ : Stack, toDB Γ s = none ↔ IllScoped Γ s := by
+  intro Γ
+  obtain ⟨r, g, v, es⟩ := s
+  by_cases hv : ∃ x a d b, v = .let_ x a d b
+  · obtain ⟨x, ann, defn, body, rfl⟩ := hv
+    rw [ill_let_iff]
+    simp only [toDB, toDBV]
+    cases hb : Stack.bindAll Γ (x.name :: letNames body) with
+    | none => simp
+    | some Γ' =>
+      have := hc Γ' (x.name :: letNames body).length 0
+      simp only [toDBChain, toDBChainV, Nat.zero_add] at this
+      simp only [reduceCtorEq, Option.some.injEq, exists_eq_left', false_or]
+      rw [← this]
+      cases toDBAnn Γ' ann (x.name :: letNames body).length 0 <;> cases toDB Γ' defn <;>
+        cases toDBChain Γ' (x.name :: letNames body).length 1 body <;> simp
+  · have hv' : ∀ x a d b, v ≠ .let_ x a d b := fun x a d b e => hv ⟨x, a, d, b, e⟩
+    have := hc Γ 0 0
+    rw [illChain_nonlet hv'] at this
+    rw [← this]
+    simp only [toDB, toDBChain, C08_chain_body_is_toDB Γ 0 0 v hv']
+    cases toDBV Γ v <;> simp
+
+mutual
+theorem chainIll : ∀ (s : Src), ChainIll s
+  | .mk r g .parseError es => by
+      intro Γ n i
+      rw [illChain_nonlet (by simp)]
+      simp only [toDBChain, toDBChainV, true_iff]
+      exact .parseError
+  | .mk r g .type es | .mk r g .int es | .mk r g .bool es | .mk r g .tt es | .mk r g .ff es
+  | .mk r g (.lit _) es => by
+      intro Γ n i
+      rw [illChain_nonlet (by simp)]
+      simp only [toDBChain, toDBChainV, reduceCtorEq, false_iff]
+      intro h; cases h
+  | .mk r g (.var x) es => by
+      intro Γ n i
+      rw [illChain_nonlet (by simp), ill_var_iff]
+      simp only [toDBChain, toDBChainV]
+      by_cases hx : x = placeholder
+      · simp [hx]
+      · cases Stack.index Γ x <;> simp [hx]
+  | .mk r g (.lam x im dom body) es => by
+      intro Γ n i
+      have q1 := optIll dom Γ
+      have q2 := ill_of_chain body (chainIll body) (slot x.name :: Γ)
+      rw [illChain_nonlet (by simp), ill_lam_iff, ← q1, ← q2]
+      simp only [toDBChain, toDBChainV, Stack.bind_eq]
+      by_cases h : x.name ≠ placeholder ∧ (Stack.index Γ x.name).isSome
+      · rw [if_pos h]; cases toDBOpt Γ dom <;> simp [h]
+      · rw [if_neg h]
+        cases toDBOpt Γ dom <;> cases hB : toDB (slot x.name :: Γ) body <;> simp [h, hB]
+  | .mk r g (.pi x im dom cod) es => by
+      intro Γ n i
+      have q1 := ill_of_chain dom (chainIll dom) Γ
+      have q2 := ill_of_chain cod (chainIll cod) (slot x.name :: Γ)
+      rw [illChain_nonlet (by simp), ill_pi_iff, ← q1, ← q2]
+      simp only [toDBChain, toDBChainV, Stack.bind_eq]
+      by_cases h : x.name ≠ placeholder ∧ (Stack.index Γ x.name).isSome
+      · rw [if_pos h]; cases toDB Γ dom <;> simp [h]
+      · rw [if_neg h]
+        cases toDB Γ dom <;> cases hB : toDB (slot x.name :: Γ) cod <;> simp [h, hB]
+  | .mk r g (.app f a) es => by
+      intro Γ n i
+      have q1 := ill_of_chain f (chainIll f) Γ
+      have q2 := ill_of_chain a (chainIll a) Γ
+      rw [illChain_nonlet (by simp), ill_app_iff, ← q1, ← q2]
+      simp only [toDBChain, toDBChainV]
+      cases toDB Γ f <;> cases toDB Γ a <;> simp
+  | .mk r g (.neg a) es => by
+      intro Γ n i
+      have q1 := ill_of_chain a (chainIll a) Γ
+      rw [illChain_nonlet (by simp), ill_neg_iff, ← q1]
+      simp only [toDBChain, toDBChainV]
+      cases toDB Γ a <;> simp
+  | .mk r g (.bin op a b) es => by
+      intro Γ n i
+      have q1 := ill_of_chain a (chainIll a) Γ
+      have q2 := ill_of_chain b (chainIll b) Γ
+      rw [illChain_nonlet (by simp), ill_bin_iff, ← q1, ← q2]
+      simp only [toDBChain, toDBChainV]
+      cases toDB Γ a <;> cases toDB Γ b <;> simp
+  | .mk r g (.ite c a b) es => by
+      intro Γ n i
+      have q0 := ill_of_chain c (chainIll c) Γ
+      have q1 := ill_of_chain a (chainIll a) Γ
+      have q2 := ill_of_chain b (chainIll b) Γ
+      rw [illChain_nonlet (by simp), ill_ite_iff, ← q0, ← q1, ← q2]
+      simp only [toDBChain, toDBChainV]
+      cases toDB Γ c <;> cases toDB Γ a <;> cases toDB Γ b <;> simp
+  | .mk r g (.let_ x ann defn body) es => by
+      intro Γ n i
+      have q0 := annIll ann Γ n i
+      have q1 := ill_of_chain defn (chainIll defn) Γ
+      have q2 := chainIll body Γ n (i + 1)
+      rw [illChain_let_iff, ← q0, ← q1, ← q2]
+      simp only [toDBChain, toDBChainV]
+      cases toDBAnn Γ ann n i <;> cases toDB Γ defn <;> cases toDBChain Γ n (i + 1) body <;> simp
+theorem optIll : ∀ (o : OptSrc) (Γ : Stack), toDBOpt Γ o = none ↔ IllScopedOpt Γ o
+  | .none, Γ => by simp [toDBOpt, IllScopedOpt]
+  | .some (.mk r g v es), Γ => by
+      simp only [toDBOpt, IllScopedOpt]
+      exact ill_of_chain _ (chainIll (.mk r g v es)) Γ
+theorem annIll : ∀ (o : OptSrc) (Γ : Stack) (n i : Nat), toDBAnn Γ o n i = none ↔ IllScopedOpt Γ o
+  | .none, Γ, n, i => by simp [toDBAnn, IllScopedOpt]
+  | .some (.mk r g v es), Γ, n, i => by
+      simp only [toDBAnn, IllScopedOpt]
+      exact ill_of_chain _ (chainIll (.mk r g v es)) Γ
+end
+
+/-- REJECTION.  The specification fails exactly on the ill-scoped programs. -/
+def C08_rejects_stmt : Prop :=
+  ∀ (Γ : Stack) (s : Src), toDB Γ s = none ↔ IllScoped Γ s
+theorem C08_rejects : C08_rejects_stmt :=
+  fun Γ s => ill_of_chain s (chainIll s) Γ
+
+theorem Stack.index_isSome : ∀ (Γ : Stack) (x : Name), (Stack.index Γ x).isSome = true ↔ some x ∈ Γ
+  | [], x => by simp [Stack.index]
+  | a :: Γ, x => by
+      rw [Stack.index_cons]
+      by_cases h : a = some x
+      · simp [h]
+      · have := Stack.index_isSome Γ x
+        have h' : ¬ some x = a := fun e => h e.symm
+        rw [if_neg h]; simp [Option.isSome_map, this, h']
+
+/-- "Re-binds a name that is already in scope", spelled out: pushing the names of a group fails
+exactly when some name other than `_` is bound outside the group or occurs earlier in the group. -/
+def C08_rebind_stmt : Prop :=
+  ∀ (names : List Name) (Γ : Stack), Γ.bindAll names = none ↔
+    ∃ pre x post, names = pre ++ x :: post ∧ x ≠ placeholder ∧ (some x ∈ Γ ∨ x ∈ pre)
+theorem Stack.bindAll_none_iff : C08_rebind_stmt
+  | [], Γ => by simp [Stack.bindAll]
+  | y :: ys, Γ => by
+      simp only [Stack.bindAll, Stack.bind_eq]
+      by_cases hy : y ≠ placeholder ∧ (Stack.index Γ y).isSome
+      · rw [if_pos hy]
+        simp only [true_iff]
+        exact ⟨[], y, ys, rfl, hy.1, .inl ((Stack.index_isSome Γ y).mp hy.2)⟩
+      · rw [if_neg hy]
+        simp only
+        rw [Stack.bindAll_none_iff ys (slot y :: Γ)]
+        constructor
+        · rintro ⟨pre, x, post, rfl, hx, h⟩
+          refine ⟨y :: pre, x, post, rfl, hx, ?_⟩
+          rcases h with h | h
+          · rcases List.mem_cons.mp h with h | h
+            · right
+              unfold slot at h
+              split at h
+              · simp at h
+              · simp at h; simp [h]
+            · exact .inl h
+          · right; simp [h]
+        · rintro ⟨pre, x, post, he, hx, h⟩
+          cases pre with
+          | nil =>
+            simp at he
+            obtain ⟨rfl, rfl⟩ := he
+            rcases h with h | h
+            · exact absurd ⟨hx, (Stack.index_isSome Γ y).mpr h⟩ hy
+            · simp at h
+          | cons z pre =>
+            simp at he
+            obtain ⟨rfl, rfl⟩ := he
+            refine ⟨pre, x, post, rfl, hx, ?_⟩
+            rcases h with h | h
+            · exact .inl (List.mem_cons_of_mem _ h)
+            · rcases List.mem_cons.mp h with h | h
+              · subst h; left; simp [slot, hx]
+              · exact .inr h
+theorem C08_rebind : C08_rebind_stmt := Stack.bindAll_none_iff
+
+/-! ## Non-vacuity of the round trip, the scope clauses and rejection -/
+
+private def slet (x : Name) (ann : OptSrc) (d b : Src) : Src :=
+  .mk ⟨0, 0⟩ false (.let_ ⟨⟨0, 0⟩, x⟩ ann d b) []
+private def slit (n : Int) : Src := .mk ⟨0, 0⟩ false (.lit n) []
+
+-- `x => y => x y`: indices (1, 0); read back to the source
+example : toDB [] (sl 1 (sl 2 (sa (sv 1) (sv 2))))
+    = some (.lam 1 false (.hole 0 0) (.lam 2 false (.hole 0 0) (.app (.var 1 1) (.var 2 0)))) := by decide
+example : fromDB [] (.lam 1 false (.hole 0 0) (.lam 2 false (.hole 0 0) (.app (.var 1 1) (.var 2 0))))
+    = some (sl 1 (sl 2 (sa (sv 1) (sv 2)))) := by rfl
+-- the names carried by `Tm.var` play no role in reading back: only the indices do
+example : fromDB [] (.lam 1 false (.hole 0 0) (.lam 2 false (.hole 0 0) (.app (.var 7 1) (.var 7 0))))
+    = some (sl 1 (sl 2 (sa (sv 1) (sv 2)))) := by rfl
+-- `x : y = y; y = x; x y`: a group of two with cross references and an annotation mentioning the
+-- later definition; the omitted annotation of `y` is a hole living outside the group
+example : toDB [] (slet 1 (.some (sv 2)) (sv 2) (slet 2 .none (sv 1) (sa (sv 1) (sv 2))))
+    = some (.letg (.cons 1 (.var 2 0) (.var 2 0) (.cons 2 (.hole 0 1) (.var 1 1) .nil))
+        (.app (.var 1 1) (.var 2 0))) := by decide
+example : fromDB [] (.letg (.cons 1 (.var 2 0) (.var 2 0) (.cons 2 (.hole 0 1) (.var 1 1) .nil))
+        (.app (.var 1 1) (.var 2 0)))
+    = some (slet 1 (.some (sv 2)) (sv 2) (slet 2 .none (sv 1) (sa (sv 1) (sv 2)))) := by rfl
+-- sibling scopes may re-use a name: `(x => x) (x => x)`
+example : toDB [] (sa (sl 1 (sv 1)) (sl 1 (sv 1)))
+    = some (.app (.lam 1 false (.hole 0 0) (.var 1 0)) (.lam 1 false (.hole 0 0) (.var 1 0))) := by decide
+example : fromDB [] (.app (.lam 1 false (.hole 0 0) (.var 1 0)) (.lam 1 false (.hole 0 0) (.var 1 0)))
+    = some (sa (sl 1 (sv 1)) (sl 1 (sv 1))) := by rfl
+-- `_ => x => _`: the anonymous slot is skipped (`x` under one more binder is still index 0), `_` is a hole
+example : toDB [] (sl 0 (sl 1 (sa (sv 1) (sv 0))))
+    = some (.lam 0 false (.hole 0 0) (.lam 1 false (.hole 0 0) (.app (.var 1 0) (.hole 0 0)))) := by decide
+example : fromDB [] (.lam 0 false (.hole 0 0) (.lam 1 false (.hole 0 0) (.app (.var 1 0) (.hole 0 0))))
+    = some (sl 0 (sl 1 (sa (sv 1) (sv 0)))) := by rfl
+-- `x = 1; (y = 2; y)` and `x = 1; y = 2; y` are one and the same group for gram, and for `stripLayout`
+example : toDB [] (slet 1 .none (slit 1) (.mk ⟨4, 9⟩ true (.let_ ⟨⟨0, 0⟩, 2⟩ .none (slit 2) (sv 2)) []))
+    = toDB [] (slet 1 .none (slit 1) (slet 2 .none (slit 2) (sv 2))) := by decide
+example : stripLayout (slet 1 .none (slit 1) (.mk ⟨4, 9⟩ true (.let_ ⟨⟨0, 0⟩, 2⟩ .none (slit 2) (sv 2)) []))
+    = stripLayout (slet 1 .none (slit 1) (slet 2 .none (slit 2) (sv 2))) := by rfl
+-- the i-th name of a group of 3, one further binder crossed: index 1 + (3 - 1 - 0)
+example : toDB ([some 9] ++ [some 3, some 2, some 1]) (sv 1) = some (.var 1 (1 + (3 - 1 - 0))) := by decide
+example : Stack.bindAll [] [1, 2, 3] = some [some 3, some 2, some 1] := by decide
+-- rejection: an unbound name, a shadowing parameter, a name defined twice in a group
+example : IllScoped [] (sv 5) := .unbound (by decide) (by decide)
+example : IllScoped [] (sl 1 (sl 1 (sv 1))) := .lamBody (.lamRebind (by decide) (by decide))
+example : IllScoped [] (slet 1 .none (slit 1) (slet 1 .none (slit 2) (sv 1))) := .letRebind (by decide)
+example : IllScoped [] (slet 1 .none (sv 7) (sv 1)) :=
+  .letIn (Γ' := [some 1]) (by decide) (.defn (.unbound (by decide) (by decide)))
+example : toDB [] (slet 1 .none (sv 7) (sv 1)) = none := by decide
+example : ¬ IllScoped [] (sa (sl 1 (sv 1)) (sl 1 (sv 1))) := by
+  rw [← C08_rejects]; decide
+
+
+/-! ### Reading back and resolving again -/
+
+theorem toDBOpt_normLamAnn (Γ : Stack) : ∀ o : OptSrc, toDBOpt Γ (normLamAnn o) = toDBOpt Γ o
+  | .none => rfl
+  | .some (.mk r g v es) => by
+      cases v <;> simp only [normLamAnn]
+      rename_i x
+      by_cases hx : x = placeholder
+      · simp [hx, toDBOpt, toDB, toDBV]
+      · simp [hx]
+
+theorem toDB_let_chain (Γ : Stack) (r g es x ann d body) :
+    toDB Γ (.mk r g (.let_ x ann d body) es) =
+      match Γ.bindAll (x.name :: letNames body) with
+      | none => none
+      | some Γ' => (toDBChain Γ' (x.name :: letNames body).length 0
+          (.mk r g (.let_ x ann d body) es)).map (fun p => Tm.letg p.1 p.2) := by
+  simp only [toDB, toDBV, toDBChain, toDBChainV, Nat.zero_add]
+  cases Stack.bindAll Γ (x.name :: letNames body) with
+  | none => rfl
+  | some Γ' =>
+    simp only
+    cases toDBAnn Γ' ann (x.name :: letNames body).length 0 <;> cases toDB Γ' d <;>
+      rcases toDBChain Γ' (x.name :: letNames body).length 1 body with _ | ⟨rest, b⟩ <;> rfl
+
+theorem toDB_nonlet_chain (Γ : Stack) {r g v es} (hv : ∀ x a d b, v ≠ .let_ x a d b) :
+    toDB Γ (.mk r g v es) = (toDBChain Γ 0 0 (.mk r g v es)).map (·.2) := by
+  simp only [toDB, toDBChain, C08_chain_body_is_toDB Γ 0 0 v hv]
+  cases toDBV Γ v <;> rfl
+
+def ChainStrip (s : Src) : Prop :=
+  letNames (layoutB true s) = letNames s ∧
+    ∀ (Γ : Stack) (n i : Nat), toDBChain Γ n i (layoutB true s) = toDBChain Γ n i s
+
+theorem strip_of_chain (s : Src) (hc : ChainStrip s) :
+    ∀ Γ : Stack, toDB Γ (layoutB true s) = toDB Γ s := by
+  intro Γ
+  obtain ⟨r, g, v, es⟩ := s
+  obtain ⟨h1, h2⟩ := hc
+  by_cases hv : ∃ x a d b, v = .let_ x a d b
+  · obtain ⟨x, ann, defn, body, rfl⟩ := hv
+    simp only [layoutB, layoutVB] at h1 h2 ⊢
+    rw [toDB_let_chain, toDB_let_chain]
+    simp only [letNames] at h1
+    have h1' : letNames (layoutB true body) = letNames body := (List.cons.inj h1).2
+    rw [h1']
+    cases Stack.bindAll Γ (x.name :: letNames body) with
+    | none => rfl
+    | some Γ' => simp only; rw [h2]
+  · have hv' : ∀ x a d b, v ≠ .let_ x a d b := fun x a d b e => hv ⟨x, a, d, b, e⟩
+    have hv'' : ∀ x a d b, layoutVB true v ≠ .let_ x a d b := by
+      cases v <;> simp [layoutVB]
+      exact absurd rfl (hv' _ _ _ _)
+    simp only [layoutB] at h2 ⊢
+    rw [toDB_nonlet_chain Γ hv', toDB_nonlet_chain Γ hv'', h2]
+
+mutual
+theorem chainStrip : ∀ (s : Src), ChainStrip s
+  | .mk r g .parseError es | .mk r g .type es | .mk r g .int es | .mk r g .bool es
+  | .mk r g .tt es | .mk r g .ff es | .mk r g (.lit _) es | .mk r g (.var _) es =>
+      ⟨by simp [layoutB, layoutVB, letNames], fun Γ n i => by
+        simp only [layoutB, layoutVB, toDBChain]⟩
+  | .mk r g (.lam x im dom body) es =>
+      ⟨by simp [layoutB, layoutVB, letNames], fun Γ n i => by
+        simp only [layoutB, layoutVB, toDBChain, toDBChainV, if_true, toDBOpt_normLamAnn]
+        rw [optStrip dom Γ]
+        cases toDBOpt Γ dom <;> cases hb : Stack.bind Γ x.name <;> simp only
+        rw [strip_of_chain body (chainStrip body)]⟩
+  | .mk r g (.pi x im dom cod) es =>
+      ⟨by simp [layoutB, layoutVB, letNames], fun Γ n i => by
+        simp only [layoutB, layoutVB, toDBChain, toDBChainV]
+        rw [strip_of_chain dom (chainStrip dom)]
+        cases toDB Γ dom <;> cases hb : Stack.bind Γ x.name <;> simp only
+        rw [strip_of_chain cod (chainStrip cod)]⟩
+  | .mk r g (.app f a) es =>
+      ⟨by simp [layoutB, layoutVB, letNames], fun Γ n i => by
+        simp only [layoutB, layoutVB, toDBChain, toDBChainV]
+        rw [strip_of_chain f (chainStrip f), strip_of_chain a (chainStrip a)]⟩
+  | .mk r g (.neg a) es =>
+      ⟨by simp [layoutB, layoutVB, letNames], fun Γ n i => by
+        simp only [layoutB, layoutVB, toDBChain, toDBChainV]
+        rw [strip_of_chain a (chainStrip a)]⟩
+  | .mk r g (.bin op a b) es =>
+      ⟨by simp [layoutB, layoutVB, letNames], fun Γ n i => by
+        simp only [layoutB, layoutVB, toDBChain, toDBChainV]
+        rw [strip_of_chain a (chainStrip a), strip_of_chain b (chainStrip b)]⟩
+  | .mk r g (.ite c a b) es =>
+      ⟨by simp [layoutB, layoutVB, letNames], fun Γ n i => by
+        simp only [layoutB, layoutVB, toDBChain, toDBChainV]
+        rw [strip_of_chain c (chainStrip c), strip_of_chain a (chainStrip a),
+          strip_of_chain b (chainStrip b)]⟩
+  | .mk r g (.let_ x ann defn body) es =>
+      ⟨by simp [layoutB, layoutVB, letNames, (chainStrip body).1], fun Γ n i => by
+        simp only [layoutB, layoutVB, toDBChain, toDBChainV]
+        rw [annStrip ann Γ n i, strip_of_chain defn (chainStrip defn), (chainStrip body).2]⟩
+theorem optStrip : ∀ (o : OptSrc) (Γ : Stack), toDBOpt Γ (layoutOptB true o) = toDBOpt Γ o
+  | .none, Γ => rfl
+  | .some (.mk r g v es), Γ => by
+      simp only [layoutOptB, toDBOpt]
+      exact strip_of_chain _ (chainStrip (.mk r g v es)) Γ
+theorem annStrip : ∀ (o : OptSrc) (Γ : Stack) (n i : Nat),
+    toDBAnn Γ (layoutOptB true o) n i = toDBAnn Γ o n i
+  | .none, Γ, n, i => rfl
+  | .some (.mk r g v es), Γ, n, i => by
+      simp only [layoutOptB, toDBAnn]
+      exact strip_of_chain _ (chainStrip (.mk r g v es)) Γ
+end
+
+/-- Layout plays no role in resolution: a program and its `stripLayout` resolve alike. -/
+def C08_toDB_stripLayout_stmt : Prop :=
+  ∀ (Γ : Stack) (s : Src), toDB Γ (stripLayout s) = toDB Γ s
+theorem C08_toDB_stripLayout : C08_toDB_stripLayout_stmt :=
+  fun Γ s => strip_of_chain s (chainStrip s) Γ
+
+/-- `fromDB` is a right inverse of `toDB` on its image: what is read back resolves to the very tree
+it was read from. -/
+def C08_readback_resolves_stmt : Prop :=
+  ∀ (Γ : Stack) (s : Src) (t : Tm), toDB Γ s = some t →
+    ∃ s', fromDB Γ t = some s' ∧ toDB Γ s' = some t
+theorem C08_readback_resolves : C08_readback_resolves_stmt := by
+  intro Γ s t h
+  exact ⟨stripLayout s, C08_roundtrip Γ s t h, by rw [C08_toDB_stripLayout, h]⟩
+
+example : ∃ s', fromDB [] (.lam 1 false (.hole 0 0) (.var 1 0)) = some s' ∧
+    toDB [] s' = some (.lam 1 false (.hole 0 0) (.var 1 0)) :=
+  C08_readback_resolves [] (.mk ⟨3, 4⟩ true (.lam ⟨⟨0, 0⟩, 1⟩ false .none
+    (.mk ⟨0, 0⟩ false (.var 1) [])) []) _ (by decide)
+
